@@ -45,6 +45,11 @@ def cases(tier, seed):
                         out.append({"key": f"passeff/{m}x{n}/r={r}/R={R}/P={P}/v={v}", "fn": "pass_eff_qsvd", "m": m, "n": n, "r": r, "R": R, "P": P, "arg": v})
     for c in out:
         c["S"] = 4 if tier == "quick" else 16
+    # component-support masks (entries in span of a subset of {1,i,j,k}), full rank
+    for m, n in ((3, 3), (4, 3), (3, 4)):
+        for mask in G.COMPONENT_MASKS:
+            for fn, arg in (("rand_qsvd", 1), ("pass_eff_qsvd", 2)):
+                out.append({"key": f"mask/{fn}/{m}x{n}/{G.mask_name(mask)}", "fn": fn, "m": m, "n": n, "r": 3, "R": 2, "P": 1, "arg": arg, "mask": mask, "S": 2})
     # whole-matrix scalings (thresholds inside the algorithms must be relative)
     for m, n in ((3, 3), (4, 3), (3, 4)):
         for e in (-50, 40):
@@ -59,7 +64,14 @@ def run_case(case, seed):
     p = min(m, n)
     fill = G.Fill(seed, stream=hash_tag(f"{m}x{n}/r={r}"))
     vals = VALS[:r] + [0.0] * (p - r)
-    A, _, _ = SG.build(m, n, vals, "hh", "hh", fill, variant=r)
+    if case.get("mask"):
+        B_ = fill.quat_int(m, n, -4, 4).astype(float)
+        B_[B_ == 0] = 2.0
+        A = G.apply_component_mask(B_, case["mask"])
+        vals = [float(v) for v in O.svals(A)]
+        r = int(sum(1 for v in vals if v > 1e-9 * max(vals[0], 1.0)))
+    else:
+        A, _, _ = SG.build(m, n, vals, "hh", "hh", fill, variant=r)
     if case.get("scale"):
         A = np.ldexp(A, case["scale"])
         vals = [float(np.ldexp(v, case["scale"])) for v in vals]
@@ -72,7 +84,7 @@ def run_case(case, seed):
     evals = 0
     ok_runs = 0
     wide_sketch = (R + P) > p
-    tags = {"fn": case["fn"], "wide_sketch": wide_sketch, "sketch_gt_rank": (R + P) > r, "r_lt_R": r < R, "m": m, "n": n, "R": R, "P": P, "r": r, "arg": case["arg"]}
+    tags = {"fn": case["fn"], "wide_sketch": wide_sketch, "sketch_gt_rank": (R + P) > r, "r_lt_R": r < R or (case.get("mask") is not None and len(vals) > 1 and abs(vals[0] - vals[1]) <= 1e-9 * vals[0]), "m": m, "n": n, "R": R, "P": P, "r": r, "arg": case["arg"]}
     first = None
     for sd in range(S):
         np.random.seed(sd)
